@@ -231,10 +231,44 @@ def vres (nest : Bool) (r : Res VBuf) : St × String :=
   | .ok v' => (.vec v' nest, showV v')
   | .error f => (.none, showFault f)
 
-def vChecked (v : VBuf) (n : Nat) (k : Res VBuf) : Res VBuf :=
-  match v.totalCap with
-  | .error f => .error f
-  | .ok c => if n ≤ c then k else .error .contract
+def beginSum : VBuf → Nat
+  | .base _ _ => 0
+  | .vslice i b _ _ => b + beginSum i
+
+/-- total capacity of the base container; `none` if a member's `as_uninit` panics -/
+def baseCap (ms : List Buf) : Option Nat :=
+  match ms with
+  | [] => some 0
+  | m :: t =>
+    match m.asUninit, baseCap t with
+    | .ok (_, c), some s => some (c + s)
+    | _, _ => none
+
+/-- what the harness checks before it issues a recording call: the documented contract (`n ≤` the view's
+total capacity), and — `IoVectoredBuf::slice` / `slice_mut` accept a `begin` beyond the end without
+panicking — that the `begin`s do not push the length past the base capacity (that would be UB, see notes) -/
+inductive Pre where
+  | go
+  | refuse (s : String)
+  | fault (f : Fault)
+
+def preCheck (c : Res Nat) (v : VBuf) (extra n : Nat) : Pre :=
+  match c with
+  | .error f => .fault f
+  | .ok c =>
+    if n > c then .refuse "contract"
+    else match baseCap v.members with
+      | none => .refuse "oob"
+      | some bc => if beginSum v + extra + n > bc then .refuse "oob" else .go
+
+def vRun (nest : Bool) (v : VBuf) (n : Nat) (k : Res VBuf) : St × String :=
+  match preCheck v.totalCap v 0 n with
+  | .fault f => (.none, showFault f)
+  | .refuse s => (.vec v nest, s)
+  | .go =>
+    match k with
+    | .ok v' => (.vec v' nest, showV v')
+    | .error f => (.none, showFault f)
 
 /-- refusals (`contract`) leave the state, real panics kill it -/
 def vresKeep (nest : Bool) (v : VBuf) (r : Res VBuf) : St × String :=
@@ -250,15 +284,15 @@ def vecOp (v : VBuf) (nest : Bool) (w : List String) : St × String :=
   match w with
   | ["vfill", h] =>
     match parseHex h with
-    | some d => vresKeep nest v (v.fill d)
+    | some d => vRun nest v d.length (v.fill d)
     | none => (.vec v nest, "bad-op")
   | ["vsetlen", n] =>
     match n.toNat? with
-    | some n => vresKeep nest v (vChecked v n (v.setLen n))
+    | some n => vRun nest v n (v.setLen n)
     | none => (.vec v nest, "bad-op")
   | ["vadvto", n] =>
     match n.toNat? with
-    | some n => vresKeep nest v (vChecked v n (v.advanceVecTo n))
+    | some n => vRun nest v n (v.advanceVecTo n)
     | none => (.vec v nest, "bad-op")
   | ["vslice", b] =>
     match b.toNat? with
@@ -283,24 +317,42 @@ def itKeep (nest : Bool) (it : VIter) (r : Res VIter) : St × String :=
   | .error .contract => (.viter it nest, "contract")
   | .error f => (.none, showFault f)
 
-def itChecked (it : VIter) (n : Nat) (k : Res VIter) : Res VIter :=
-  match it.asUninit with
-  | .error f => .error f
-  | .ok (_, _, c) => if n ≤ c then k else .error .contract
+/-- current capacities of the members the iterator has already passed (member indices `j - index .. j`,
+where `j` is the current member) -/
+def earlierCaps (it : VIter) : Nat :=
+  match nthItem it.buf.iterUninit it.index with
+  | .error _ => 0
+  | .ok (j, _, _) =>
+    (((it.buf.members.drop (j - it.index)).take it.index).map fun m =>
+      match m.asUninit with
+      | .ok (_, c) => c
+      | .error _ => 0).sum
+
+def itRun (nest : Bool) (it : VIter) (n : Nat) (k : Res VIter) : St × String :=
+  let c : Res Nat := match it.asUninit with
+    | .ok (_, _, c) => .ok c
+    | .error f => .error f
+  match preCheck c it.buf (earlierCaps it) n with
+  | .fault f => (.none, showFault f)
+  | .refuse s => (.viter it nest, s)
+  | .go =>
+    match k with
+    | .ok it' => (.viter it' nest, showIt it')
+    | .error f => (.none, showFault f)
 
 def viterOp (it : VIter) (nest : Bool) (w : List String) : St × String :=
   match w with
   | ["ifill", h] =>
     match parseHex h with
-    | some d => itKeep nest it (it.fill d)
+    | some d => itRun nest it d.length (it.fill d)
     | none => (.viter it nest, "bad-op")
   | ["isetlen", n] =>
     match n.toNat? with
-    | some n => itKeep nest it (itChecked it n (it.setLen n))
+    | some n => itRun nest it n (it.setLen n)
     | none => (.viter it nest, "bad-op")
   | ["iadvto", n] =>
     match n.toNat? with
-    | some n => itKeep nest it (itChecked it n (it.advanceTo n))
+    | some n => itRun nest it n (it.advanceTo n)
     | none => (.viter it nest, "bad-op")
   | ["inext"] =>
     match it.next with
